@@ -226,6 +226,20 @@ SafetyBound ==
         /\ \A v \in verts : CmpRad(4, v.h, Own, Act, last.d2) <= 0
         /\ \A q \in Cands \ visited : CandD2(q) >= last.d2
 
+\* C16, second clause (design level): a generator placed at ANY lattice point strictly farther from Own than the
+\* safety radius (= twice the distance to the farthest vertex: 4 r^2 < d^2 for every vertex) cannot cut the finished
+\* cell - whatever else the input contains.  q ranges over the lattice points of the (tripled, if periodic) box on the
+\* active axes; the unused coordinates are 0 (Generator::new projects them).
+FarPoints == LET lo == BoxLoOf(inp)  hi == BoxHiOf(inp)
+             IN {<<x, y, z>> : x \in lo[1]..hi[1],
+                               y \in (IF Act[2] = 1 THEN lo[2]..hi[2] ELSE {0}),
+                               z \in (IF Act[3] = 1 THEN lo[3]..hi[3] ELSE {0})}
+FarIrrelevant ==
+    pc = "done" =>
+        \A q \in FarPoints :
+            (q # Own /\ \A v \in verts : CmpRad(4, v.h, Own, Act, D2(Own, q)) < 0)
+                => \A v \in verts : Side(v.h, Bis(Own, q)) >= 0
+
 \* C06: along periodic axes no wall carries a vertex once the cell is finished; shifts are
 \* lattice vectors in {-1,0,1} on the active axes.
 PeriodicNoWalls ==
